@@ -95,6 +95,36 @@ def run_demod(samples, den, nf):
     return "%s|%d" % (out, len(r.signal_buffer))
 
 
+def run_demod_seq(bufs, den):
+    """one reader, several buffers in a row (the running-minimum noise floor is state carried between calls)"""
+    global _R
+    if _R is None:
+        with contextlib.redirect_stdout(io.StringIO()):
+            from pyModeS.extra import rtlreader
+        _R = rtlreader
+    r = object.__new__(_R.RtlReader)
+    r.noise_floor = 1e6
+    r.debug = False
+    outs = []
+    for samples in bufs:
+        r.signal_buffer = [x / den for x in samples]
+        try:
+            ms = r._process_buffer()
+        except RuntimeError:
+            outs.append("RE")
+            break
+        except Exception:  # noqa
+            outs.append("EXC")
+            break
+        outs.append("%s|%d" % (",".join(m[0] for m in ms) if ms else "-", len(r.signal_buffer)))
+    return ";".join(outs)
+
+
+def pred_frames_seq(real_out, exps):
+    got = [o.split("|")[0] for o in real_out.split(";")]
+    return got == list(exps), ";".join(exps)
+
+
 def pred_frames(real_out, exp, nbad17):
     if real_out in ("RE", "EXC"):
         return False, "frames " + exp
@@ -152,6 +182,25 @@ def cases(ctx):
             e = ",".join(exp) if exp else "-"
             yield dict(op="demod - %d %s" % (DEN, ",".join(map(str, buf))), real=("h:props.C19.run_demod", [buf, DEN, None]),
                        pred=["pred_frames", e, 0], tag="tail-%d" % tail, info=dict(amp=amp, ratio=0.0, tail=tail), trivial=not exp)
+    # several buffers through one reader: a quiet buffer first, then a short burst in which no complete 100-microsecond
+    # window is free of frame energy (the floor learnt earlier must still be in force), then an ordinary buffer again
+    for _ in range(ctx.n(12, 120)):
+        amp = rng.choice(amps)
+        seq, exps = [], []
+        b1, e1 = build(rng, rng.randrange(1, 3), amp, rng.choice([0.0, 0.02, 0.05]), "uniform")
+        seq.append(b1); exps.append(",".join(e1) if e1 else "-")
+        for _k in range(rng.randrange(1, 3)):
+            b2, e2 = build(rng, 1, amp, 0.02, "uniform")
+            first = next((i for i, v in enumerate(b2) if v > amp * 0.5), 0)
+            start = max(0, first - rng.randrange(0, 12))
+            burst = b2[start:start + rng.choice([330, 380, 399])]
+            seq.append(burst)
+            exps.append(",".join(e2) if e2 else "-")
+        b3, e3 = build(rng, rng.randrange(1, 3), amp, 0.05, "uniform")
+        seq.append(b3); exps.append(",".join(e3) if e3 else "-")
+        yield dict(op="demodseq - %d %s" % (DEN, ";".join(",".join(map(str, b)) for b in seq)),
+                   real=("h:props.C19.run_demod_seq", [seq, DEN]), pred=["pred_frames_seq", exps], tag="reader-history",
+                   info=dict(amp=amp, ratio=0.02))
     # long busy buffers (the noise floor must come from 100-microsecond windows)
     for _ in range(ctx.n(2, 10)):
         buf, exp = build_busy(rng, rng.randrange(410, 425))     # about 204800 samples, the reader's real buffer size
